@@ -124,6 +124,20 @@ func ctxDeadline(c *Ctx, v ssa.Value, f *ssa.Function, depth int) (bool, string)
 		return true, "every module caller passes a deadline-bearing context"
 	case *ssa.FreeVar:
 		return false, "captured " + x.Name()
+	case *ssa.Phi:
+		// one of several contexts (the whole operation's, or a shorter child of it): every one of them must carry a deadline
+		why := ""
+		for _, e := range x.Edges {
+			if e == ssa.Value(x) {
+				continue
+			}
+			ok, w := ctxDeadline(c, e, f, depth+1)
+			if !ok {
+				return false, "one alternative: " + w
+			}
+			why = w
+		}
+		return len(x.Edges) > 0, "every alternative: " + why
 	}
 	return false, fmt.Sprintf("%T", d)
 }
@@ -318,6 +332,18 @@ func checkPerAttemptDeadlines(c *Ctx, fs []*ssa.Function) {
 				for h := range loop {
 					if strings.HasPrefix(h.Comment, "range") {
 						isRange = true
+					}
+				}
+				// a shorter child of a deadline that was set for the whole operation outside the loop slices that budget up, it
+				// does not extend it
+				if !isRange && len(call.Common().Args) > 0 {
+					if par := c.P.Def(call.Common().Args[0]); par != nil {
+						if pin, isInstr := par.(ssa.Instruction); isInstr && pin.Parent() == f && !loop[pin.Block()] {
+							if okp, _ := ctxDeadline(c, call.Common().Args[0], f, 0); okp {
+								R.OK("R08.7", fmt.Sprintf("%s#deadline-context[%d]", fn, n), call.Pos(), fn, name+" per attempt derives from a deadline context created before the loop: the attempts share one budget")
+								continue
+							}
+						}
 					}
 				}
 				R.Check(isRange, "R08.7", fmt.Sprintf("%s#deadline-context[%d]", fn, n), call.Pos(), fn, name+" is created per work item of a range loop", name+" is created inside a retry loop: the deadline bounds one attempt, not the operation, so a responder that stalls every attempt holds the caller for (number of attempts) x (timeout) instead of the stated timeout")
